@@ -263,6 +263,7 @@ SEQ_REACH = {
     "VH_SEQ_V1MultisigDistinctKeys": ["accepted"],
     "VH_SEQ_V1ProofAndExpirySameBlock": ["end"],
     "VH_SEQ_MinerPayouts": ["accepted"],
+    "VH_SEQ_BlockIssuance": ["subsidy", "no-subsidy"],
     "VH_SEQ_V1SigTimelock": ["accepted", "accepted-at-sig-bound", "accepted-at-uc-bound"],
 }
 # tags whose reachability is part of the property (rules flip exactly at their bounds): not reached => violation
@@ -270,7 +271,7 @@ SEQ_ACCEPT = {"revised-at-proof-height", "new-proof-height-at-bound", "minimal-w
               "accepted-at-bound", "accepted-at-maturity", "v1-last-height", "v1-at-maturity", "v2-first-height", "window-starts-now", "timelock-at-bound", "revised-at-window-start",
               "accepted-at-sig-bound", "accepted-at-uc-bound"}
 SEQ_V1 = ["VH_SEQ_V1FormContract", "VH_SEQ_V1Revision", "VH_SEQ_V1SiafundClaim", "VH_SEQ_V1Resolution", "VH_SEQ_V1SameTxnDouble", "VH_SEQ_V1MultisigDistinctKeys",
-          "VH_SEQ_V1ProofAndExpirySameBlock", "VH_SEQ_MinerPayouts", "VH_SEQ_V1SigTimelock"]
+          "VH_SEQ_V1ProofAndExpirySameBlock", "VH_SEQ_MinerPayouts", "VH_SEQ_V1SigTimelock", "VH_SEQ_BlockIssuance"]
 SEQ_H1 = ["harness/cons/v1seq.go", "harness/common/cons_world.go", "harness/common/cons_support.go"]
 SEQ_CUTS = ["TransactionWeight/V2TransactionWeight: an arbitrary value (uninterpreted)", "FileContractTax / V2FileContractTax: uninterpreted tax(value) <= value (the same function in validation and application)",
             "StorageProofLeafIndex: arbitrary index below the leaf count", "V1Currency inside hash pre-images: fixed-width injective code (real variable-length code checked in C11)",
@@ -327,10 +328,10 @@ PROPS["C08"] = {
     "stubs": SEQ_CUTS, "assumptions": SEQ_ASSUME,
 }
 PROPS["C01"] = {
-    "runs": seq_check(["VH_SEQ_V2Conservation", "VH_SEQ_V2ResolutionOutputs", "VH_SEQ_V2ReviseRevise", "VH_SEQ_V2SiafundClaimRunningPool", "VH_SEQ_V1FormContract", "VH_SEQ_V1SiafundClaim", "VH_SEQ_V1Resolution", "VH_SEQ_MinerPayouts"]),
+    "runs": seq_check(["VH_SEQ_V2Conservation", "VH_SEQ_V2ResolutionOutputs", "VH_SEQ_V2ReviseRevise", "VH_SEQ_V2SiafundClaimRunningPool", "VH_SEQ_V1FormContract", "VH_SEQ_V1SiafundClaim", "VH_SEQ_V1Resolution", "VH_SEQ_MinerPayouts", "VH_SEQ_BlockIssuance"]),
     "tv_runs": {"quick": 0, "thorough": 0},
-    "bounds": {"quick": "one v2 transaction from an arbitrary state: (1 input, 2 outputs, optional new contract, fee): value of created elements + locked contract value + pool increase + fee == value spent, computed on the diffs the real ApplyV2Transaction produced; renewal splits the old contract exactly; revisions keep the contract total and keep the missed host value <= host value (so an expiry never pays more than is locked); v2 siafund claim after an in-block contract formation pays (running pool - claim start)/10000 x value and new siafund outputs start at the running pool; v1: contract formation conserves (inputs == outputs + payout + fee, pool += tax), siafund claim pays exactly the share, resolution pays exactly the valid / missed outputs; miner payouts accepted => payout == block reward + v1 fee + v2 fee (1 payout, 1 fee each)", "thorough": "same"},
-    "outside": ["foundation subsidy equation, chains (only the one-step equations above are decided); sums over more elements than the harness shapes"],
+    "bounds": {"quick": "one v2 transaction from an arbitrary state: (1 input, 2 outputs, optional new contract, fee): value of created elements + locked contract value + pool increase + fee == value spent, computed on the diffs the real ApplyV2Transaction produced; renewal splits the old contract exactly; revisions keep the contract total and keep the missed host value <= host value (so an expiry never pays more than is locked); v2 siafund claim after an in-block contract formation pays (running pool - claim start)/10000 x value and new siafund outputs start at the running pool; v1: contract formation conserves (inputs == outputs + payout + fee, pool += tax), siafund claim pays exactly the share, resolution pays exactly the valid / missed outputs; miner payouts accepted => payout == block reward + v1 fee + v2 fee (1 payout, 1 fee each); a block creates exactly its miner payouts and, iff the Foundation schedule says so (10-minute block interval), the subsidy of exactly 30000 SC x blocks per month (per year at the fork height), all with the maturity delay", "thorough": "same"},
+    "outside": ["chains (only the one-step equations above are decided; supply over a history follows by induction on these steps); sums over more elements than the harness shapes; block intervals other than 10 minutes in the subsidy schedule"],
     "stubs": SEQ_CUTS, "assumptions": SEQ_ASSUME,
 }
 for pid, txt in [("C01", "conservation equations on the diffs produced by the real validation+application code"), ("C02", "no second use of an element inside one block"),
